@@ -155,9 +155,13 @@ def run_case(case, seed, c, phs, fcs):
             if len(scs) != ndisp:
                 return dict(ok=False, sig="C01/displaced-supercells-stale", msg="%d displaced supercells for %d displacements" % (len(scs), ndisp), transitions=trans)
             base = ph.supercell.positions
-            ph.forces = np.array([-np.einsum("ijab,jb->ia", ref, sc_.positions - base) for sc_ in scs])
+            fbuf = np.array([-np.einsum("ijab,jb->ia", ref, sc_.positions - base) for sc_ in scs], dtype="double", order="C")
         else:
-            ph.forces = SP.forces_for_dataset(ref, ds)
+            fbuf = np.array(SP.forces_for_dataset(ref, ds), dtype="double", order="C")
+        ph.forces = fbuf
+        # the caller's buffer is reused afterwards (the usual loop over volumes / displacements): the forces that count are those
+        # at the time of the call
+        fbuf[...] = np.nan
         trans += 1
         phx.quiet(ph.produce_force_constants, calculate_full_force_constants=(case["layout"] == "full"),
                   fc_calculator=None, show_drift=False)
